@@ -9,12 +9,64 @@ import (
 
 // kvcbStore is a small in-memory Storage. Cursors are snapshots that iterate
 // keys in ascending byte order.
+// Keys and values are handed out as slices with spare capacity, key and value of a pair back to
+// back in one buffer (as an arena-backed store would): a statement that appends to such a slice in
+// place, or writes through it, damages the guard bytes and is caught by kvcbIntact.
 type kvcbStore struct {
 	data map[string][]byte
+	keys map[string][]byte
+	bufs map[string][]byte
 }
 
+const kvcbGuard = 0xA5
+
 func newKvcbStore() *kvcbStore {
-	return &kvcbStore{data: make(map[string][]byte)}
+	return &kvcbStore{data: make(map[string][]byte), keys: make(map[string][]byte), bufs: make(map[string][]byte)}
+}
+
+func (s *kvcbStore) place(key, value []byte) {
+	buf := make([]byte, len(key)+4+len(value)+4)
+	for i := range buf {
+		buf[i] = kvcbGuard
+	}
+	copy(buf, key)
+	copy(buf[len(key)+4:], value)
+	k := string(key)
+	s.keys[k] = buf[:len(key) : len(key)+4]
+	s.data[k] = buf[len(key)+4 : len(key)+4+len(value)]
+	s.bufs[k] = buf
+}
+
+// kvcbIntact: no stored byte and no guard byte has changed.
+func (s *kvcbStore) kvcbIntact(want map[string]string) string {
+	for k, buf := range s.bufs {
+		v, ok := s.data[k]
+		if !ok {
+			continue
+		}
+		if string(s.keys[k]) != k || string(v) != want[k] {
+			return fmt.Sprintf("pair %q: stored bytes changed to %q=%q", k, s.keys[k], v)
+		}
+		for i := len(k); i < len(k)+4; i++ {
+			if buf[i] != kvcbGuard {
+				return fmt.Sprintf("pair %q: bytes behind the key were overwritten", k)
+			}
+		}
+		for i := len(k) + 4 + len(v); i < len(buf); i++ {
+			if buf[i] != kvcbGuard {
+				return fmt.Sprintf("pair %q: bytes behind the value were overwritten", k)
+			}
+		}
+	}
+	return ""
+}
+
+func (s *kvcbStore) snapshot() map[string]string {
+	m := map[string]string{}
+	for k, v := range s.data {
+		m[k] = string(v)
+	}
+	return m
 }
 
 func (s *kvcbStore) Get(key []byte) ([]byte, error) {
@@ -25,25 +77,27 @@ func (s *kvcbStore) Get(key []byte) ([]byte, error) {
 }
 
 func (s *kvcbStore) Put(key []byte, value []byte) error {
-	s.data[string(key)] = value
+	s.place(key, value)
 	return nil
 }
 
 func (s *kvcbStore) BatchPut(kvs []KVPair) error {
 	for _, kv := range kvs {
-		s.data[string(kv.Key)] = kv.Value
+		s.place(kv.Key, kv.Value)
 	}
 	return nil
 }
 
 func (s *kvcbStore) Delete(key []byte) error {
 	delete(s.data, string(key))
+	delete(s.keys, string(key))
+	delete(s.bufs, string(key))
 	return nil
 }
 
 func (s *kvcbStore) BatchDelete(keys [][]byte) error {
 	for _, k := range keys {
-		delete(s.data, string(k))
+		s.Delete(k)
 	}
 	return nil
 }
@@ -56,7 +110,7 @@ func (s *kvcbStore) Cursor() (Cursor, error) {
 	sort.Strings(keys)
 	kvs := make([]KVPair, len(keys))
 	for i, k := range keys {
-		kvs[i] = NewKVP([]byte(k), s.data[k])
+		kvs[i] = NewKVP(s.keys[k], s.data[k])
 	}
 	return &kvcbCursor{kvs: kvs}, nil
 }
@@ -143,6 +197,14 @@ func kvcbCompare(t *testing.T, query string, s Storage, batchSizes []int) {
 	t.Helper()
 	saved := PlanBatchSize
 	defer func() { PlanBatchSize = saved }()
+	if ks, ok := s.(*kvcbStore); ok {
+		want := ks.snapshot()
+		defer func() {
+			if msg := ks.kvcbIntact(want); msg != "" {
+				t.Errorf("%q damaged the store (a SELECT must not write): %s", query, msg)
+			}
+		}()
+	}
 	for _, bs := range batchSizes {
 		PlanBatchSize = bs
 		rrows, rerr := kvcbDrainRows(t, query, s)
